@@ -82,7 +82,12 @@ void arrays()
       // array::append names fcppt::array::size<Array1> with the unstripped (reference) type in its
       // body, so an lvalue FIRST array is a hard compile error (append, push_back, join of >= 2
       // arrays); only an rvalue first argument can be driven.  See docs/notes_C05.md.
-      if constexpr (C1 == 'r')
+#ifdef C05_ARRAY_APPEND_LVALUE
+      constexpr bool first_ok = true; // the tree under test has array::append repaired
+#else
+      constexpr bool first_ok = C1 == 'r';
+#endif
+      if constexpr (first_ok)
       {
         run2<C1, C2>("array::append", true, "array2+array3", mk_arr2, mk_arr3,
                      [](auto &&a, auto &&b) C05_CALL(fcppt::array::append(C05_FWD(a), C05_FWD(b))));
@@ -183,6 +188,9 @@ void records()
   {
     constexpr char C = decltype(c)::value;
     run1<C>("record::permute", true, "ab->ba", mk_rec_ab, [](auto &&a) C05_CALL(fcppt::record::permute<rec_ba>(C05_FWD(a))));
+    // record::map_result is computed from the unstripped Record type: an lvalue record is a
+    // hard compile error, only rvalue records can be mapped
+    if constexpr (C == 'r')
     run1<C>("record::map", true, "ab", mk_rec_ab, [](auto &&a)
     {
       return fcppt::record::map(C05_FWD(a), [](auto &&x)
@@ -192,7 +200,7 @@ void records()
       });
     });
     run1<C>("record::object(record)", true, "ab", mk_rec_ab, [](auto &&a) C05_CALL(rec_ab(C05_FWD(a))));
-    run1<C>("record::get", true, "ab", mk_rec_ab, [](auto &&a)
+    run1<C>("record::get", false, "ab", mk_rec_ab, [](auto &&a)
     { return T(fcppt::move_if_rvalue<decltype(a)>(fcppt::record::get<label_a>(a))); });
     run1<C>("record::init", true, "from record", mk_rec_ab, [](auto &&a)
     {
